@@ -10,7 +10,8 @@ PROPERTY = "C20"
 PRELOAD_NETWORK_ORDERS = [["btc", "xtn", "ltc", "bch", "grs", "doge", "dash", "btg"], ["btg", "grs", "bch", "doge", "ltc", "xtn", "btc"]]
 LEVEL = "exploration"
 TECHNIQUE = ("two-sided oracle at Tx.check(): defect predicate written from the statement; full before/after snapshots on returning and raising "
-             "paths across transaction size classes; every defect class crossed with every transaction kind")
+             "paths across transaction size classes; every defect class crossed with every transaction kind, with every flavour / producer of the "
+             "compared fields; judged calls interleaved with refused calls; 2^16+ calls on one object")
 RULE = ("cases: (transaction class, transaction) pairs. Deterministic sweep: every listed defect alone and at every position "
         "(values 0,1,MAX-1,MAX,MAX+1,-1,2^63,2^64 at each output position; totals reaching MAX / MAX+1 only at the last output; the same "
         "outpoint at every pair of positions of 2..6 inputs; coinbase script lengths 0,1,2,3,99,100,101,...; the null outpoint and five "
@@ -27,6 +28,19 @@ RULE = ("cases: (transaction class, transaction) pairs. Deterministic sweep: eve
         "sizes 999,999 / 1,000,000 / 1,000,001 reached through one script, a witness item, 29,000 outputs or 5,000 inputs). Live histories: one "
         "object of 253..5000 inputs edited one field at a time (and undone) between check() calls; fixed edit scripts in which every defect class "
         "appears and disappears on one object and the null outpoint is made / unmade by editing only the index resp. only the hash. "
+        "FLAVOURS: outpoint hashes as plain bytes / what Tx.hash() returns / a parsed TxIn / Spendable.tx_in() of a coin from the transaction, "
+        "from its text and from its dict form / pycoin's two printing bytes subclasses / a caller's bytes subclass (/ bytearray, memoryview: "
+        "rejections judged, acceptance only counted), indices and values as int / int subclass / IntEnum member / bool: every ordered pair on a "
+        "duplicated outpoint (adjacent and apart) with its must-accept twins, every flavour on the null outpoint at each position, on near-null "
+        "outpoints and on a coinbase (script 1 / 2 / 100 / 101, script also as bytearray), then random transactions with random flavours; whole "
+        "transactions from coinbase_tx(), create_tx() over coins given as object / text / dict / re-parsed, deepcopy, pickle, from_hex, parse. "
+        "ERROR PATHS: histories of ONE probe object (at the size limit with and without witness, above it, half of it, small, duplicate, "
+        "coinbase, values) judged fresh and again right after each round of refused calls: check() on an object (the same one, edited and "
+        "restored; or another one of 300 / 400,000 / 999,000 bytes of any network) with one field that does not fit its wire format or has the "
+        "wrong type (lock time, version, sequence, index, hash, scripts, value, witness item, a None element, a None list) and refused calls of "
+        "other entry points; the refused check() must leave the object's fields alone. N-TH CALL: five objects (one per shard / process) "
+        "checked 2^16+150 times (thorough 2^17+150), edited between calls, held in one state (one sole defect, or none) around the 2^16-th. "
+        "COUNT EDGE: 65535 / 65536 / 65537 outputs at stripped sizes 1,000,000 / 1,000,001. "
         "Random transactions have a handful of elements (240..300 in about 3 % of them). Evidence: one counter per clause / quantifier item "
         "(clause.*, expected_reject.*, matrix.<kind>.<defect>, purity_snapshot.<path>.elements_<class>, history.*), each required non-zero.")
 ASSUMPTIONS = [
@@ -46,6 +60,11 @@ ASSUMPTIONS = [
     "the same TxIn object listed at two positions spends one outpoint twice (duplicate_outpoint)",
     "how the object was made (constructor with witness lists / tuples / set_witness, or from_bin of the reference serialisation when that yields "
     "exactly the intended fields) is not supposed to matter to check(): the same predicate judges all of them",
+    "'the same outpoint', 'the null outpoint', values and totals are meant by value: fields that are == to the plain bytes / int (bytes and int "
+    "subclasses, bool, objects handed out by the library's own producers) are judged like the plain ones; for bytearray / memoryview fields, which "
+    "nothing promises TxIn takes, only 'rejects' is judged",
+    "a check() call on an object that is not a transaction the statement speaks about (a field that cannot be serialised or compared) is not judged, "
+    "whatever it does, except that it must not modify the object; the next check() of a proper transaction in the same process is judged as always",
 ]
 EXPLANATION = ("defects(tx) is computed from the dict the transaction was built from; any defect => check() must raise, none and total size "
                "<= 1,000,000 => must return; fields, object order, unspents and as_bin() are compared before and after check() on both "
@@ -85,16 +104,20 @@ def plan(tier, seed):
                {"kind": "kinds", "jobs": [["manyout", "GRS", True], ["coinbase_manyout", "GRS", True]] + [[k, "BTC", False] for k in small]},
                {"kind": "kinds", "jobs": [[k, n, True] for n in ("GRS", "LTC", "BCH", "BTG") for k in small]},
                {"kind": "bighist", "sizes": [2000, 1001, 1001, 253], "steps": [7, 10, 10, 10]}]
+        new = ([{"kind": "flavours", "nets": ["BTC", "LTC"], "n": 500}, {"kind": "flavours", "nets": ["GRS", "BCH", "BTG"], "n": 500}] +
+               [{"kind": "errpath", "part": p, "nparts": 3, "repeat": 2} for p in range(3)] + [{"kind": "longrun", "net": NETS[j % 5], "n": (1 << 16) + 150, "hold": h} for j, h in enumerate(LONGRUN_HOLDS)] + [{"kind": "countedge"}])
         return ([{"kind": "sweep", "net": n} for n in NETS] + [{"kind": "sizes", "net": n, "part": p} for n in ("BTC", "GRS") for p in (0, 1)] +
-                [{"kind": "random", "n": 9000} for _ in range(7)] + [{"kind": "history", "n": 12} for _ in range(3)] + big)
+                [{"kind": "random", "n": 9000} for _ in range(7)] + [{"kind": "history", "n": 12} for _ in range(3)] + big + new)
     big = ([{"kind": "sizeclass", "classes": [c], "full": True} for c in (5000, 5000, 2000, 3000, 1001, 1002, 1000)] +
            [{"kind": "sizeclass", "classes": [1, 2, 3, 252, 253, 254, 255, 999], "full": True}, {"kind": "sizeclass", "classes": [12000], "full": False}] +
            [{"kind": "sizekinds", "jobs": [[k, n, False] for n in NETS]} for k in SIZE_KINDS] +
            [{"kind": "kinds", "jobs": [[k, n, False]]} for k in kinds if k.startswith("many") for n in NETS] +
            [{"kind": "kinds", "jobs": [[k, n, False] for k in kinds if not k.startswith("many")]} for n in NETS] +
            [{"kind": "bighist", "sizes": [1001, 2000, 5000, 1001, 254, 1000], "steps": [30] * 6} for _ in range(6)])
+    new = ([{"kind": "flavours", "nets": [n], "n": 30000} for n in NETS] + [{"kind": "errpath", "part": p, "nparts": 6, "repeat": 6} for p in range(6)] +
+           [{"kind": "longrun", "net": NETS[j % 5], "n": (1 << 17) + 150, "hold": h} for j, h in enumerate(LONGRUN_HOLDS)] + [{"kind": "countedge"}])
     return ([{"kind": "sweep", "net": n} for n in NETS] + [{"kind": "sizes", "net": n, "part": p} for n in ("BTC", "GRS", "LTC") for p in (0, 1)] +
-            [{"kind": "random", "n": 180000} for _ in range(12)] + [{"kind": "history", "n": 400} for _ in range(6)] + big)
+            [{"kind": "random", "n": 180000} for _ in range(12)] + [{"kind": "history", "n": 400} for _ in range(6)] + big + new)
 
 
 # ---------------------------------------------------------------------------------------------
@@ -283,6 +306,49 @@ def selftest(rec):
                 "stripped_size_over_limit"} | ({"coinbase_script_size"} if KINDS[kd].get("coinbase") else set())
         assert need <= seen, (kd, need - seen)       # every defect class of the statement occurs on every kind
     out["recipe_laws"] = m
+    # flavours: equal (and, where hashable, hashing equal) to the plain value, printing differently; every swept case has the verdict its label says
+    h = _h(1, 1)
+    assert _HashSub(h) == h and hash(_HashSub(h)) == hash(h) and str(_HashSub(h)) != str(h) and "%s" % _HashSub(h) != "%s" % h
+    assert bytearray(h) == h and memoryview(h) == h and hash(memoryview(h)) == hash(h)
+    for xf in INDEX_FLAVOURS:
+        v = _int_flavour(xf, 1)
+        assert v == 1 and hash(v) == hash(1) and isinstance(v, int) and "%d" % v == "1" and (xf == "int") == (type(v) is int)
+    assert str(_int_flavour("intsub", 1)) != "1" and _int_flavour("intenum", 0xffffffff) == G.NULL_INDEX and _int_flavour("bool", 0) is False
+    q = 0
+    for net in ("BTC", "GRS"):
+        for label, d, flav in flavour_sweep(net):
+            dfx = defects(d, MAXES[net])
+            want = (["duplicate_outpoint"] if label.startswith("dup ") else ["null_outpoint_in_non_coinbase"] if label.startswith("null outpoint")
+                    else ["coinbase_script_size"] if label.startswith("coinbase") and label.endswith((" 1", " 101"))
+                    else ["value_out_of_range"] if label.startswith("value %d" % (MAXES[net] + 1))
+                    else ["total_out_of_range"] if label.startswith("total %d" % (MAXES[net] + 1)) else [])
+            assert dfx == want, (label, dfx)
+            assert len(flav["ins"]) == len(d["ins"]) and all(f[1] != "bool" or i["index"] in (0, 1) for f, i in zip(flav["ins"], d["ins"])), label
+            assert is_coinbase_ref(d) == label.startswith("coinbase"), label
+            q += 1
+    out["flavour_laws"] = q
+    # error paths: every probe is decided by the statement, both verdicts occur, every refusal names a known family and value
+    q = 0
+    for net in ("BTC", "GRS"):
+        verdicts = {}
+        pr = errpath_probes(net)
+        assert sorted(pr) == sorted(PROBE_NAMES)
+        for name in PROBE_NAMES:
+            d = pr[name]()
+            dfx = defects(d, MAXES[net])
+            assert dfx or sizes(d)[1] <= LIMIT, name
+            verdicts[name] = not dfx
+            q += 1
+        assert [k for k in PROBE_NAMES if verdicts[k]] == ["at_limit", "half", "wit_at_limit", "small", "small_wit", "coinbase", "total_max"]
+        assert sizes(pr["at_limit"]())[1] == LIMIT and sizes(pr["wit_at_limit"]())[1] == LIMIT and sizes(pr["over_limit"]())[0] == LIMIT + 1
+    assert all(r[2] in BAD_VALUES and r[1] in (None, "first", "last") for r in REFUSALS)
+    for size in BROKEN_SIZES[1:]:
+        assert len(R.serialize(_broken_dict(size, True))) == size and defects(_broken_dict(size, False), MAX) == []
+    out["errpath_laws"] = q
+    for label, rc in count_edge_recipes("thorough"):
+        if "=65536 " in label and label.endswith("=%d" % LIMIT):
+            d, _ = big_tx(rc)
+            assert len(d["outs"]) == 0x10000 and sizes(d)[0] == LIMIT and defects(d, MAX) == []
     return out
 
 
@@ -481,16 +547,21 @@ def _size_class(d):
     return "le_2" if n <= 2 else "3..251" if n < 252 else "252..254" if n <= 254 else "255..1000" if n <= 1000 else "1001..2000" if n <= 2000 else "gt_2000"
 
 
-def _check_one(net, T, d, rec, label=None, with_unspents=False, case=None, alias=(), second=False, full_snapshot=True, via="attr", cell=None):
+def _check_one(net, T, d, rec, label=None, with_unspents=False, case=None, alias=(), second=False, full_snapshot=True, via="attr", cell=None,
+               flav=None):
     """d: the dict the transaction is built from. case: what is stored for replay (default: the packed dict). alias: pairs (a, b) of
     input positions holding the SAME TxIn object (d must list equal entries there). with_unspents: False / True ("full") / "short" / "holes".
     second: run check() a second time on the same object and demand the same verdict and still no modification.
-    cell: name of the KIND when the case belongs to the defect x kind matrix (counted per cell once check() has been judged)"""
+    cell: name of the KIND when the case belongs to the defect x kind matrix (counted per cell once check() has been judged)
+    flav: {"ins": [[hash flavour, index flavour, script flavour] per input], "outs": [value flavour per output] or None}: the object's
+    fields carry the values of d in these flavours (equal by value, different in type / producer); the verdict is that of d"""
     MAX = MAXES[net]
     if case is None:
         case = {"net": net, "tx": G.pack(d)}
         if label:
             case["label"] = label
+        if flav:
+            case["flav"] = flav
     ser = serialisable(d)
     stripped_size, total_size = sizes(d) if ser else (None, None)
     dfx = defects(d, MAX, stripped_size)
@@ -509,6 +580,13 @@ def _check_one(net, T, d, rec, label=None, with_unspents=False, case=None, alias
     rec.ev("made_via." + via)
     if via != "attr":
         case = dict(case, via=via)
+    if flav:
+        why = _apply_flavours(T, tx, d, flav)
+        if why:
+            # the library refuses to make such an element (or makes another one than asked for): nothing to judge
+            rec.ev("flavour.not_built")
+            rec.ev("flavour.not_built." + why)
+            return
     for a, b in alias:
         tx.txs_in[b] = tx.txs_in[a]
         rec.ev("same_input_object_twice")
@@ -549,15 +627,26 @@ def _check_one(net, T, d, rec, label=None, with_unspents=False, case=None, alias
         rec.ev("expected_reject." + dfx[0])
         for x in dfx[1:]:
             rec.ev("expected_reject(also)." + x)
+        if flav:
+            _flavour_events(rec, d, flav, dfx, cb, "reject")
         if st == "ok":
-            rec.violation("check.accepts_defective." + (dfx[0] if len(dfx) == 1 else "multiple"), dict(case, defects=dfx), "returned", "raise")
+            rec.violation("check.accepts_defective." + (dfx[0] if len(dfx) == 1 else "multiple") + _flavour_suffix(T, d, flav, "raise"),
+                          dict(case, defects=dfx), "returned", "raise")
     elif decided_accept:
         rec.ev("expected_accept")
         rec.ev("expected_accept." + net)
         if total_size >= LIMIT - 1:
             rec.ev("expected_accept.at_size_limit")
-        if st != "ok":
-            if zero_hash_non_null(d):
+        if flav:
+            _flavour_events(rec, d, flav, dfx, cb, "accept")
+        if st != "ok" and flav and _optional_flavours(flav):
+            # (an element type the library does not promise to take - bytearray, memoryview: a refusal is counted, not judged)
+            rec.ev("flavour.optional.wellformed_refused")
+            rec.ev("flavour.optional.wellformed_refused." + type(r).__name__)
+        elif st != "ok":
+            if flav:
+                rec.violation("check.rejects_wellformed" + _flavour_suffix(T, d, flav, "return"), case, r, "return")
+            elif zero_hash_non_null(d):
                 rec.violation("null_outpoint.index_ignored", dict(case, api="check"), r, "return")
             else:
                 rec.violation("check.rejects_wellformed", case, r, "return")
@@ -569,7 +658,7 @@ def _check_one(net, T, d, rec, label=None, with_unspents=False, case=None, alias
         st2, r2 = observe(tx.check)
         if dfx and st2 == "ok":
             rec.violation("check.second_call.accepts_defective", dict(case, defects=dfx), "returned", "raise")
-        elif decided_accept and st2 != "ok":
+        elif decided_accept and st2 != "ok" and not (flav and _optional_flavours(flav)):
             rec.violation("null_outpoint.index_ignored" if zero_hash_non_null(d) else "check.second_call.rejects_wellformed",
                           dict(case, api="check(second)"), r2, "return")
         diff = _snap_diff(before, _snapshot(tx, full_snapshot))
@@ -1040,6 +1129,15 @@ def size_kind_recipes(kind):
             yield "total=%d" % tgt, _rc(base, [["pad", tgt, 0, where[0], where[1]]])
 
 
+def count_edge_recipes(tier):
+    """an output COUNT on the 16-bit compact-size boundary (65535 / 65536 / 65537 outputs of 9 bytes: 590 kB) at the size limit"""
+    jobs = [(0xffff, LIMIT), (0xffff, LIMIT + 1), (0x10000, LIMIT), (0x10000, LIMIT + 1), (0x10001, LIMIT)]
+    if tier != "quick":
+        jobs += [(0x10001, LIMIT + 1), (0xffff, LIMIT - 1), (0x10000, LIMIT - 1), (0xfffe, LIMIT), (0xfffe, LIMIT + 1)]
+    for n_out, tgt in jobs:
+        yield "outputs=%d stripped=%d" % (n_out, tgt), _rc({"n_in": 2, "n_out": n_out, "out_script_len": 0, "tag": n_out}, [["pad", tgt, 1, "in_script", 1]])
+
+
 def _run_recipe(net, T, rc, rec, label, unspents=False, second=False, via="attr", cell=None, full_snapshot=True):
     d, alias = big_tx(rc)
     case = {"net": net, "label": label, "recipe": rc, "unspents": unspents or None, "second": bool(second)}
@@ -1446,10 +1544,709 @@ def history_cases(net, T, rng, rec, n):
         small_history(net, T, d, [], rec, rng=rng, n_steps=rng.randrange(2, 7))
 
 
+# ---------------------------------------------------------------------------------------------
+# flavours: field values that are equal (==, and hash() where hashable) to the plain bytes / int of the dict but of another type or from
+# another producer. The statement speaks of "the same outpoint", "the null outpoint", values and totals - all of them by value.
+
+# producers of the outpoint hash of one input
+CORE_HASH_FLAVOURS = ["bytes", "hash()", "parsed", "spendable", "from_text", "from_dict", "revhex", "as_hex", "subclass"]
+OPTIONAL_HASH_FLAVOURS = ["bytearray", "memoryview"]           # taken by TxIn today; nothing promises it
+HASH_FLAVOURS = CORE_HASH_FLAVOURS + OPTIONAL_HASH_FLAVOURS
+INDEX_FLAVOURS = ["int", "intsub", "intenum", "bool"]          # bool only for 0 / 1
+SCRIPT_FLAVOURS = ["bytes", "bytearray"]
+PLAIN = ["bytes", "int", "bytes"]
+
+
+class _HashSub(bytes):
+    """a caller's own bytes subclass: prints as something else than bytes do"""
+    def __str__(self):
+        return "<txid %02x..>" % (self[31] if len(self) > 31 else 0)
+    __repr__ = __str__
+
+    def __format__(self, spec):
+        return str(self)
+
+
+class _IntSub(int):
+    """a caller's own int subclass (as IntEnum members, numpy-like scalars): prints as something else than ints do"""
+    def __str__(self):
+        return "vout#%d" % int(self)
+    __repr__ = __str__
+
+
+_ENUMS = {}
+
+
+def _int_flavour(xf, v):
+    if xf == "int":
+        return int(v)
+    if xf == "intsub":
+        return _IntSub(v)
+    if xf == "intenum":
+        if v not in _ENUMS:
+            import enum
+            _ENUMS[v] = enum.IntEnum("Vout", {"n": v}).n
+        return _ENUMS[v]
+    if xf == "bool":
+        assert v in (0, 1), "bool flavour asked for %r" % (v,)
+        return bool(v)
+    raise AssertionError("unknown int flavour %r" % (xf,))
+
+
+def _hash_value(T, hf, prev):
+    """the 32 bytes `prev` as the object of flavour hf (for the flavours that are a type rather than a producer of inputs)"""
+    from pycoin.encoding import hexbytes
+    if hf == "bytes":
+        return bytes(bytearray(prev))          # a fresh object, never the dict's own
+    if hf == "revhex":
+        return hexbytes.bytes_as_revhex(prev)
+    if hf == "as_hex":
+        return hexbytes.bytes_as_hex(prev)
+    if hf == "subclass":
+        return _HashSub(prev)
+    if hf == "bytearray":
+        return bytearray(prev)
+    if hf == "memoryview":
+        return memoryview(bytes(bytearray(prev)))
+    if hf == "hash()":
+        # whatever type Tx.hash() hands out (also what tx_outs_as_spendable() puts into its Spendables), holding these 32 bytes
+        sample = T(1, [T.TxIn(b"\1" * 32, 0, b"\x51")], [T.TxOut(1, b"\x51")]).hash()
+        return type(sample)(prev)
+    raise AssertionError("unknown hash flavour %r" % (hf,))
+
+
+def _flavoured_in(T, i, hf, xf, sf):
+    """a TxIn with the fields of i, its outpoint hash from producer hf, its index of flavour xf, its script of flavour sf"""
+    import io
+    prev, idx, script, seq = bytes(i["prev"]), i["index"], bytes(i["script"]), i["sequence"]
+    x = _int_flavour(xf, idx)
+    s = bytearray(script) if sf == "bytearray" else script
+    if hf == "parsed":
+        t = T.TxIn.parse(io.BytesIO(prev + idx.to_bytes(4, "little") + R.csize(len(script)) + script + seq.to_bytes(4, "little")))
+    elif hf in ("spendable", "from_text", "from_dict"):
+        # "spendable": what tx.tx_outs_as_spendable()[k].tx_in() gives (the Spendable holds the object Tx.hash() returned)
+        sp = T.Spendable(1000, b"\x51", _hash_value(T, "hash()", prev) if hf == "spendable" else prev, idx)
+        if hf == "from_text":
+            sp = T.Spendable.from_text(sp.as_text())
+        elif hf == "from_dict":
+            sp = T.Spendable.from_dict(sp.as_dict())
+        t = sp.tx_in(script, seq)
+    else:
+        t = T.TxIn(_hash_value(T, hf, prev), x, s, seq)
+    if xf != "int":
+        t.previous_index = x
+    if sf != "bytes":
+        t.script = s
+    t.witness = list(i["witness"])
+    return t
+
+
+def _optional_flavours(flav):
+    return any(f[0] in OPTIONAL_HASH_FLAVOURS or f[2] != "bytes" for f in flav["ins"])
+
+
+def _apply_flavours(T, tx, d, flav):
+    """replace the inputs of tx by flavoured ones (and the output values); returns None, or why the object could not be made"""
+    assert len(flav["ins"]) == len(d["ins"]) and (not flav.get("outs") or len(flav["outs"]) == len(d["outs"]))
+    for k, (i, f) in enumerate(zip(d["ins"], flav["ins"])):
+        st, t = observe(_flavoured_in, T, i, *f)
+        if st != "ok":
+            if isinstance(t, AssertionError):
+                raise t
+            return "refused." + f[0]
+        tx.txs_in[k] = t
+    for j, vf in enumerate(flav.get("outs") or []):
+        if vf != "int":
+            tx.txs_out[j].coin_value = _int_flavour(vf, d["outs"][j]["value"])
+    st, back = observe(G.from_pycoin, tx)
+    if st != "ok" or back != G.norm(d):
+        return "producer_changed_fields"
+    return None
+
+
+def _flavour_suffix(T, d, flav, want):
+    """which root cause a wrong verdict on a flavoured object has: the same fields as plain bytes / ints judged rightly -> the flavours"""
+    if not flav:
+        return ""
+    st, _ = observe(lambda: G.to_pycoin(T, d).check())
+    return ".only_with_mixed_flavours" if (st == "ok") == (want == "return") else ""
+
+
+def _flavour_events(rec, d, flav, dfx, cb, verdict):
+    fi = flav["ins"]
+    rec.ev("flavour.judged." + verdict)
+    for f in fi:
+        rec.ev("flavour.hash." + f[0])
+        rec.ev("flavour.index." + f[1])
+    pts = [(i["prev"], i["index"]) for i in d["ins"]]
+    if dfx == ["duplicate_outpoint"]:
+        first = {}
+        for k, pt in enumerate(pts):
+            if pt in first:
+                a = first[pt]
+                for z in (a, k):
+                    rec.ev("flavour.duplicate.hash." + fi[z][0])
+                    rec.ev("flavour.duplicate.index." + fi[z][1])
+                rec.ev("flavour.duplicate.hash_pair.%s+%s" % tuple(sorted((fi[a][0], fi[k][0]))))
+                if fi[a][0] != fi[k][0]:
+                    rec.ev("flavour.duplicate.mixed_hash_flavours")
+                if fi[a][1] != fi[k][1]:
+                    rec.ev("flavour.duplicate.mixed_index_flavours")
+                break
+            first[pt] = k
+    elif dfx == ["null_outpoint_in_non_coinbase"]:
+        k = pts.index(NULL)
+        rec.ev("flavour.null_outpoint.hash." + fi[k][0])
+        rec.ev("flavour.null_outpoint.index." + fi[k][1])
+    elif cb and dfx in ([], ["coinbase_script_size"]):
+        rec.ev("flavour.coinbase.hash." + fi[0][0])
+        rec.ev("flavour.coinbase.index." + fi[0][1])
+        rec.ev("flavour.coinbase.script." + fi[0][2])
+    elif not dfx:
+        n = len(pts)
+        if any(pts[a][0] == pts[b][0] and fi[a][0] != fi[b][0] for a in range(n) for b in range(a + 1, n)):
+            rec.ev("flavour.accept.sibling_outputs_mixed_hash_flavours")
+        if any(pts[a][1] == pts[b][1] and fi[a][1] != fi[b][1] for a in range(n) for b in range(a + 1, n)):
+            rec.ev("flavour.accept.same_index_mixed_index_flavours")
+        if zero_hash_non_null(d) or any(p != G.NULL_HASH and x == G.NULL_INDEX for p, x in pts):
+            rec.ev("flavour.accept.near_null")
+    if flav.get("outs") and any(v != "int" for v in flav["outs"]):
+        rec.ev("flavour.values." + verdict)
+        for v in flav["outs"]:
+            rec.ev("flavour.value." + v)
+
+
+FLAVOUR_COUNTERS = (["flavour.judged.accept", "flavour.judged.reject", "flavour.duplicate.mixed_hash_flavours", "flavour.duplicate.mixed_index_flavours",
+                     "flavour.accept.sibling_outputs_mixed_hash_flavours", "flavour.accept.same_index_mixed_index_flavours", "flavour.accept.near_null",
+                     "flavour.values.accept", "flavour.values.reject", "flavour.coinbase.script.bytes"] +
+                    ["flavour.%s.hash.%s" % (c, h) for c in ("duplicate", "null_outpoint", "coinbase") for h in CORE_HASH_FLAVOURS] +
+                    ["flavour.duplicate.hash_pair.%s+%s" % tuple(sorted((a, b))) for a in CORE_HASH_FLAVOURS for b in CORE_HASH_FLAVOURS if a <= b] +
+                    ["flavour.duplicate.index." + x for x in INDEX_FLAVOURS] +
+                    ["flavour.%s.index.%s" % (c, x) for c in ("null_outpoint", "coinbase") for x in INDEX_FLAVOURS if x != "bool"] +
+                    ["flavour.value." + x for x in INDEX_FLAVOURS])
+
+
+def _flav_tx(n_in, tag, n_out=2):
+    """distinct outpoints with indices 0 / 1 (so that every index flavour applies), everything else different from input to input"""
+    ins = [{"prev": _h(tag, k, b"f"), "index": k % 2, "script": b"\x51" * (1 + k), "sequence": 0xffffffff - k % 2, "witness": []} for k in range(n_in)]
+    return {"version": 1 + tag % 2, "ins": ins, "outs": [{"value": 5 + j, "script": b"\x51" * j} for j in range(n_out)], "lock_time": 0}
+
+
+def _fl(n, over=None, outs=None):
+    f = {"ins": [list(PLAIN) for _ in range(n)], "outs": outs}
+    for k, v in (over or {}).items():
+        f["ins"][k] = list(v)
+    return f
+
+
+def flavour_sweep(net):
+    """every pair of flavours on every rule of the statement that compares elements; yields (label, dict, flav)"""
+    MAX = MAXES[net]
+    H, X = HASH_FLAVOURS, INDEX_FLAVOURS
+    tag = 0
+    # the same outpoint twice: every ordered pair of hash flavours; next to each other, and apart with another output of the same
+    # previous transaction (in a third flavour) between them. Twins that must be accepted: other index, other hash.
+    for a, b in itertools.product(H, H):
+        tag += 1
+        c = H[tag % len(CORE_HASH_FLAVOURS)]
+        t = _flav_tx(2, tag)
+        _set_pt(t, 1, (t["ins"][0]["prev"], t["ins"][0]["index"]))
+        yield "dup %s,%s" % (a, b), t, _fl(2, {0: [a, "int", "bytes"], 1: [b, "int", "bytes"]})
+        t = _flav_tx(4, tag)
+        _set_pt(t, 1, (t["ins"][0]["prev"], 1))
+        _set_pt(t, 3, (t["ins"][0]["prev"], 0))
+        yield "dup %s,(%s),%s apart" % (a, c, b), t, _fl(4, {0: [a, "int", "bytes"], 1: [c, X[tag % 4], "bytes"], 3: [b, "int", "bytes"]})
+        t = _flav_tx(2, tag)
+        _set_pt(t, 1, (t["ins"][0]["prev"], 1))
+        yield "two outputs of one tx %s,%s" % (a, b), t, _fl(2, {0: [a, "int", "bytes"], 1: [b, "int", "bytes"]})
+        t = _flav_tx(2, tag)
+        _set_pt(t, 1, (t["ins"][0]["prev"][:31] + bytes([t["ins"][0]["prev"][31] ^ 1]), 0))
+        yield "hashes differing in the last byte %s,%s" % (a, b), t, _fl(2, {0: [a, "int", "bytes"], 1: [b, "int", "bytes"]})
+    # every ordered pair of index flavours (values 0 and 1), on a few hash flavour pairs
+    for xa, xb in itertools.product(X, X):
+        for ha, hb in (("bytes", "bytes"), ("hash()", "from_text"), ("parsed", "spendable"), ("subclass", "from_dict"), ("revhex", "bytes")):
+            for v in (0, 1):
+                tag += 1
+                t = _flav_tx(3, tag)
+                _set_pt(t, 0, (t["ins"][0]["prev"], v))
+                _set_pt(t, 2, (t["ins"][0]["prev"], v))
+                yield "dup index %s,%s" % (xa, xb), t, _fl(3, {0: [ha, xa, "bytes"], 2: [hb, xb, "bytes"]})
+                t = _flav_tx(2, tag)
+                _set_pt(t, 0, (t["ins"][0]["prev"], v))
+                _set_pt(t, 1, (t["ins"][0]["prev"], 1 - v))
+                yield "indices 0 and 1, %s,%s" % (xa, xb), t, _fl(2, {0: [ha, xa, "bytes"], 1: [hb, xb, "bytes"]})
+    # the null outpoint among other inputs, and the outpoints that are nearly null, in every flavour
+    for h in H:
+        for x in ("int", "intsub", "intenum"):
+            for pos in range(3):
+                tag += 1
+                yield "null outpoint %s/%s at %d" % (h, x, pos), _set_pt(_flav_tx(3, tag), pos, NULL), _fl(3, {pos: [h, x, "bytes"]})
+            tag += 1
+            yield "zero hash, index 0, %s/%s" % (h, x), _set_pt(_flav_tx(2, tag), 1, (G.NULL_HASH, 0)), _fl(2, {1: [h, x, "bytes"]})
+            yield "index 2^32-1, %s/%s" % (h, x), _set_pt(_flav_tx(2, tag), 0, (_h(tag, 9, b"f"), G.NULL_INDEX)), _fl(2, {0: [h, x, "bytes"]})
+            yield "zero hash alone, index 2^32-2, %s/%s" % (h, x), _set_pt(_flav_tx(1, tag), 0, (G.NULL_HASH, 0xfffffffe)), _fl(1, {0: [h, x, "bytes"]})
+        tag += 1
+        yield "zero hash, index False, %s" % h, _set_pt(_flav_tx(2, tag), 1, (G.NULL_HASH, 0)), _fl(2, {1: [h, "bool", "bytes"]})
+    # coinbase: the script length rule applies whatever the flavour of its null outpoint (and of its script)
+    for h in H:
+        for x in ("int", "intsub", "intenum"):
+            for L in (1, 2, 100, 101):
+                tag += 1
+                t = _set_pt(_flav_tx(1, tag), 0, NULL)
+                t["ins"][0]["script"] = b"\x04" * L
+                t["outs"][0]["value"] = MAX - t["outs"][1]["value"]
+                yield "coinbase %s/%s script %d" % (h, x, L), t, _fl(1, {0: [h, x, SCRIPT_FLAVOURS[(tag // 3) % 2]]})
+    # values and totals
+    for vf in INDEX_FLAVOURS[1:3]:
+        for v in (MAX, MAX + 1):
+            tag += 1
+            t = _flav_tx(2, tag, n_out=2)
+            t["outs"][0]["value"], t["outs"][1]["value"] = 0, v
+            yield "value %d as %s" % (v, vf), t, _fl(2, None, ["int", vf])
+        for total in (MAX, MAX + 1):
+            tag += 1
+            t = _flav_tx(1, tag, n_out=3)
+            t["outs"][0]["value"], t["outs"][1]["value"], t["outs"][2]["value"] = total - 2, 1, 1
+            yield "total %d, %s + bool + int" % (total, vf), t, _fl(1, None, [vf, "bool", "int"])
+
+
+def flavour_random(rng, net):
+    """a random transaction with an injected defect (or a benign look-alike), each input from a producer drawn at random"""
+    MAX = MAXES[net]
+    d = _wellformed_random(rng, MAX)
+    while len(d["ins"]) < 2:
+        d["ins"].append({"prev": G.rbytes(rng, 32), "index": rng.randrange(4), "script": b"\x51", "sequence": 0xffffffff, "witness": []})
+    d["ins"] = d["ins"][:8]
+    d["outs"] = d["outs"][:6]
+    if rng.random() < 0.6:
+        for i in d["ins"]:
+            i["index"] = rng.randrange(2)
+        if rng.random() < 0.5:                   # several outputs of few previous transactions
+            for i in d["ins"][1:]:
+                if rng.random() < 0.6:
+                    i["prev"] = d["ins"][0]["prev"]
+        pts = set()
+        for k, i in enumerate(d["ins"]):         # (distinct again)
+            while (i["prev"], i["index"]) in pts:
+                i["prev"] = G.rbytes(rng, 32)
+            pts.add((i["prev"], i["index"]))
+    kind = rng.choice(["dup", "dup", "dup", "null_in_multi", "coinbase_ok", "coinbase_short", "coinbase_long", "near_null", "same_hash", "none", "none",
+                       "fill_to_max", "total"])
+    d = _inject(d, kind, rng, MAX)
+    fi = []
+    for i in d["ins"]:
+        x = rng.choice(INDEX_FLAVOURS if i["index"] in (0, 1) else INDEX_FLAVOURS[:3])
+        fi.append([rng.choice(HASH_FLAVOURS if rng.random() < 0.25 else CORE_HASH_FLAVOURS), x, "bytearray" if rng.random() < 0.05 else "bytes"])
+    fo = None
+    if rng.random() < 0.3:
+        fo = [rng.choice(INDEX_FLAVOURS if o["value"] in (0, 1) else INDEX_FLAVOURS[:3]) for o in d["outs"]]
+    return kind, d, {"ins": fi, "outs": fo}
+
+
+# ---------------------------------------------------------------------------------------------
+# whole transactions handed over by the library's other producers (judged on the fields the object then has)
+
+PRODUCERS = ["coinbase_tx", "create_tx", "deepcopy", "pickle", "from_hex", "parse"]
+COIN_FORMS = ["object", "text", "dict", "reparsed"]
+
+
+def producer_cases(net):
+    MAX = MAXES[net]
+    for L in (0, 1, 2, 100, 101):
+        for v in (MAX, MAX + 1):
+            yield ["coinbase_tx", L, v]
+    for a, b in (itertools.product(COIN_FORMS, COIN_FORMS) if net != "GRS" else ()):     # (GRS addresses need a package that may be absent)
+        yield ["create_tx", a, b, True]          # the same coin twice, in two forms
+        yield ["create_tx", a, b, False]         # two coins of one transaction
+    for how in ("deepcopy", "pickle", "from_hex", "parse"):
+        for shape in ("wellformed", "duplicate", "coinbase_short", "coinbase_ok", "null_mid", "total_over"):
+            yield [how, shape]
+
+
+def _producer_tx(net, T, args):
+    import copy
+    import importlib
+    import io
+    import pickle
+    MAX = MAXES[net]
+    name = args[0]
+    if name == "coinbase_tx":
+        return T.coinbase_tx(b"\2" + b"\1" * 32, args[2], coinbase_bytes=b"\4" * args[1])
+    if name == "create_tx":
+        network = importlib.import_module("pycoin.symbols." + net.lower()).network
+        script = b"\x76\xa9\x14" + b"\1" * 20 + b"\x88\xac"
+        funding = T(1, [T.TxIn(b"\x11" * 32, 7, b"\x51")], [T.TxOut(60000, script), T.TxOut(40000, script)])
+        coins = funding.tx_outs_as_spendable()
+
+        def form(c, how):
+            return (c if how == "object" else c.as_text() if how == "text" else c.as_dict() if how == "dict"
+                    else T.Spendable.from_bin(c.as_bin(as_spendable=True)))
+        sp = [form(coins[0], args[1]), form(coins[0 if args[3] else 1], args[2])]
+        return network.tx_utils.create_tx(sp, [network.address.for_p2pkh(b"\2" * 20)], fee=0)
+    shape = args[1]
+    d = G.simple_tx(n_in=3, n_out=2, value=7, script_len=3)
+    if shape == "duplicate":
+        _set_pt(d, 2, (d["ins"][0]["prev"], d["ins"][0]["index"]))
+    elif shape.startswith("coinbase"):
+        d = _set_pt(G.simple_tx(script_len=1 if shape == "coinbase_short" else 100, value=MAX), 0, NULL)
+    elif shape == "null_mid":
+        _set_pt(d, 1, NULL)
+    elif shape == "total_over":
+        d["outs"][0]["value"], d["outs"][1]["value"] = MAX, 1
+    if name == "from_hex":
+        return T.from_hex(R.serialize(d).hex())
+    if name == "parse":
+        return T.parse(io.BytesIO(R.serialize(d)))
+    tx = G.to_pycoin(T, d)
+    tx.set_unspents([T.TxOut(1000 + k, b"\x51") for k in range(len(tx.txs_in))])
+    return copy.deepcopy(tx) if name == "deepcopy" else pickle.loads(pickle.dumps(tx))
+
+
+def producer_case(net, T, args, rec):
+    st, tx = observe(_producer_tx, net, T, args)
+    if st != "ok":
+        rec.ev("producer.refused." + args[0])
+        return
+    rec.ev("producer." + args[0])
+    _judge_live(net, T, tx, rec, ["producer"] + [str(a) for a in args], case={"net": net, "producer": list(args)}, state={})
+
+
+# ---------------------------------------------------------------------------------------------
+# error paths: calls the library refuses part-way through (a field that does not fit its wire format, a value of the wrong type, a
+# missing element) between judged calls, in one process, on the same object and on other objects of the same and of other networks.
+# The refused call itself is never judged (the statement does not say what check() does with such an object) except that it must not
+# modify the object; the NEXT check() of a transaction the statement speaks about must give the statement's verdict.
+
+BAD_VALUES = {"2^32": 1 << 32, "2^64": 1 << 64, "-1": -1, "float": 1.5, "inf": float("inf"), "None": None, "str": "00", "int": 5, "list": [1]}
+# (family, position, value): position "first" / "mid" / "last" among the elements of that kind
+REFUSALS = ([["lock_time", None, v] for v in ("2^32", "-1", "float", "None", "str", "2^64", "inf")] +
+            [["version", None, v] for v in ("2^32", "-1", "None", "float")] +
+            [["sequence", p, v] for p in ("first", "last") for v in ("2^32", "-1", "None")] +
+            [["index", p, v] for p in ("first", "last") for v in ("2^32", "-1", "float", "None")] +
+            [["hash", p, v] for p in ("first", "last") for v in ("None", "str", "int")] +
+            [["in_script", p, v] for p in ("first", "last") for v in ("str", "None", "int")] +
+            [["out_script", p, v] for p in ("first", "last") for v in ("str", "None", "int")] +
+            [["value", p, v] for p in ("first", "last") for v in ("float", "None", "str")] +
+            [["witness_item", p, v] for p in ("first", "last") for v in ("str", "None", "int")] +
+            [["witness", "last", v] for v in ("None", "int")] +
+            [["in_element", p, "None"] for p in ("first", "last")] + [["out_element", p, "None"] for p in ("first", "last")] +
+            [["txs_in", None, "None"], ["txs_out", None, "None"]])
+API_REFUSALS = ["as_bin", "as_hex", "id", "w_id", "hash", "from_bin_truncated", "from_bin_empty", "from_hex_bad", "parse_truncated",
+                "bad_solution_count_without_unspents", "check_unspents", "set_witness_out_of_range", "sign_without_unspents"]
+REFUSAL_FAMILIES = sorted({r[0] for r in REFUSALS}) + ["api"]
+BROKEN_SIZES = [0, 400_000, 999_000]
+
+
+def _pos(n, p):
+    return 0 if p == "first" else n - 1 if p == "last" else n // 2
+
+
+def _break(tx, ref):
+    """put one value that cannot be serialised / compared into the object; returns the undo closure, or None when the object has no such field"""
+    fam, p, vname = ref
+    v = BAD_VALUES[vname]
+    ins, outs = tx.txs_in, tx.txs_out
+    if fam in ("lock_time", "version", "txs_in", "txs_out"):
+        old = getattr(tx, fam)
+        setattr(tx, fam, v)
+        return lambda: setattr(tx, fam, old)
+    if fam in ("sequence", "index", "hash", "in_script", "witness"):
+        attr = {"sequence": "sequence", "index": "previous_index", "hash": "previous_hash", "in_script": "script", "witness": "witness"}[fam]
+        t = ins[_pos(len(ins), p)]
+        old = getattr(t, attr)
+        setattr(t, attr, v)
+        return lambda: setattr(t, attr, old)
+    if fam in ("out_script", "value"):
+        attr = {"out_script": "script", "value": "coin_value"}[fam]
+        t = outs[_pos(len(outs), p)]
+        old = getattr(t, attr)
+        setattr(t, attr, v)
+        return lambda: setattr(t, attr, old)
+    if fam == "witness_item":
+        cand = [t for t in ins if t.witness]
+        if not cand:
+            return None
+        t = cand[_pos(len(cand), p)]
+        old = t.witness
+        t.witness = list(old[:-1]) + [v]
+        return lambda: setattr(t, "witness", old)
+    if fam in ("in_element", "out_element"):
+        lst = ins if fam == "in_element" else outs
+        k = _pos(len(lst), p)
+        old = lst[k]
+        lst[k] = v
+
+        def undo():
+            lst[k] = old
+        return undo
+    raise AssertionError("unknown refusal %r" % (ref,))
+
+
+def _raw(tx):
+    """the object's fields as they are (no library call; compared by value, like the snapshots of the judged calls, plus identity of the
+    containers and elements): what a refused check() must leave alone"""
+    def cp(v):
+        return bytes(v) if isinstance(v, bytearray) else [cp(w) for w in v] if isinstance(v, (list, tuple)) else v
+
+    def el(lst, fields):
+        if not isinstance(lst, list):
+            return cp(lst)
+        return [None if t is None else (id(t),) + tuple(cp(getattr(t, f, None)) for f in fields) for t in lst]
+    return (cp(tx.version), cp(tx.lock_time), id(tx.txs_in), id(tx.txs_out), id(tx.unspents),
+            el(tx.txs_in, ("previous_hash", "previous_index", "script", "sequence", "witness")), el(tx.txs_out, ("coin_value", "script")))
+
+
+_BROKEN_DICTS = {}
+
+
+def _broken_dict(size, wit):
+    key = (size, wit)
+    if key not in _BROKEN_DICTS:
+        rc = {"n_in": 3, "n_out": 3, "wit": "all" if wit else "none", "tag": 77 + size % 1000, "edits": [["pad", size, 0, "out_script", 1]] if size else []}
+        _BROKEN_DICTS[key] = big_tx(rc)[0]
+    return _BROKEN_DICTS[key]
+
+
+def _refused_call(nets, rec, r, same_tx, case):
+    """one refused call. r = {"on": "same" | [net, size, wit], "what": refusal | ["api", name]}; returns nothing: it is never judged,
+    only counted, and its object is compared before / after"""
+    import io
+    what = r["what"]
+    if r["on"] == "same" and what[0] != "api":
+        tx = same_tx
+    else:
+        net_b, size, wit = r["on"] if r["on"] != "same" else (case["net"], 0, True)
+        tx = G.to_pycoin(nets[net_b], _broken_dict(size, wit))
+    T = type(tx)
+    if what[0] == "api":
+        name = what[1]
+        ser = R.serialize(_broken_dict(0, True))
+        tx.lock_time = 1 << 32
+        fn = {"as_bin": tx.as_bin, "as_hex": tx.as_hex, "id": tx.id, "w_id": tx.w_id, "hash": tx.hash,
+              "from_bin_truncated": lambda: T.from_bin(ser[:-5]), "from_bin_empty": lambda: T.from_bin(b""), "from_hex_bad": lambda: T.from_hex("zz"),
+              "parse_truncated": lambda: T.parse(io.BytesIO(ser[:47])),
+              "bad_solution_count_without_unspents": lambda: G.to_pycoin(T, _broken_dict(0, False)).bad_solution_count(),
+              "check_unspents": lambda: G.to_pycoin(T, _broken_dict(0, False)).check_unspents(),
+              "set_witness_out_of_range": lambda: G.to_pycoin(T, _broken_dict(0, False)).set_witness(7, [b"\1"]),
+              "sign_without_unspents": lambda: G.to_pycoin(T, _broken_dict(0, False)).sign([])}[name]
+        st, e = observe(fn)
+        rec.ev("errpath.refused.api" if st != "ok" else "errpath.not_refused.api." + name)
+        return
+    undo = _break(tx, what)
+    if undo is None:
+        rec.ev("errpath.refusal_not_applicable")
+        return
+    raw0 = _raw(tx)
+    st, e = observe(tx.check)
+    raw1 = _raw(tx)
+    undo()
+    if st == "ok":
+        rec.ev("errpath.not_refused.%s.%s" % (what[0], what[2]))
+    else:
+        rec.ev("errpath.refused." + what[0])
+        rec.ev("errpath.refused.raises." + type(e).__name__)
+        rec.ev("errpath.refused.on_same_object" if r["on"] == "same" else "errpath.refused.on_other_object")
+    if raw0 != raw1:
+        rec.violation("errpath.refused_check.mutates_tx", dict(case, refused=r), "fields differ after the call", "unchanged")
+
+
+def errpath_probes(net):
+    """the judged transactions: name -> dict (verdicts come from the defect predicate)"""
+    MAX = MAXES[net]
+    cb = _set_pt(G.simple_tx(script_len=100, n_out=2, value=MAX // 2), 0, NULL)
+    dup = G.simple_tx(n_in=3, n_out=2, value=7)
+    _set_pt(dup, 2, (dup["ins"][0]["prev"], dup["ins"][0]["index"]))
+    return {"at_limit": lambda: sized_tx(LIMIT, True, 0, "out_script", n_in=2, n_out=2),
+            "over_limit": lambda: sized_tx(LIMIT + 1, True, 0, "in_script", n_in=2, n_out=2),
+            "half": lambda: sized_tx(500_000, True, 0, "in_script", n_in=2, n_out=2),
+            "wit_at_limit": lambda: sized_tx(LIMIT, False, 10, "in_script", n_in=2, n_out=2),
+            "wit_stripped_over": lambda: sized_tx(LIMIT + 1, True, 10, "in_script", n_in=2, n_out=2),
+            "small": lambda: G.simple_tx(n_in=3, n_out=2, value=7, script_len=3),
+            "small_wit": lambda: G.simple_tx(n_in=2, n_out=2, value=7, witness=[b"\x30" * 71, b"\x02" * 33]),
+            "dup": lambda: dup, "coinbase": lambda: cb,
+            "value_over": lambda: G.simple_tx(n_in=2, n_out=2, value=MAX // 2 + 1),
+            "total_max": lambda: G.simple_tx(n_in=2, n_out=2, value=MAX // 2),
+            "null_mid": lambda: _set_pt(G.simple_tx(n_in=3, n_out=1, value=7, script_len=3), 1, NULL)}
+
+
+PROBE_NAMES = ["at_limit", "over_limit", "half", "wit_at_limit", "wit_stripped_over", "small", "small_wit", "dup", "coinbase", "value_over", "total_max",
+               "null_mid"]
+
+
+def errpath_history(nets, case, rec, minimise=True):
+    """case = {"net", "probe", "rounds": [[refused call, ...], ...]}: ONE object of the probe transaction; judged fresh, then judged again
+    right after each round of refused calls (the judged check() is the first library call after the last refused one).
+    A wrong verdict is stored with the shortest history that shows it (the last round alone on a new object, when that does)"""
+    net = case["net"]
+    T, MAX = nets[net], MAXES[net]
+    d = errpath_probes(net)[case["probe"]]()
+    stripped_size, total_size = sizes(d)
+    dfx = defects(d, MAX, stripped_size)
+    cb = is_coinbase_ref(d)
+    accept = not dfx and total_size <= LIMIT
+    if not dfx and not accept:
+        rec.ev("inconclusive:errpath_probe_undecided")
+        return
+    tx = G.to_pycoin(T, d)
+    before = _snapshot(tx)
+    done = []
+    for rnd in [[]] + [list(r) for r in case["rounds"]]:
+        for r in rnd:
+            _refused_call(nets, rec, r, tx, case)
+        st, e = observe(tx.check)
+        after = _snapshot(tx)
+        if rnd:
+            done.append(rnd)
+        cs = {"net": net, "probe": case["probe"], "rounds": [list(x) for x in done]}
+        if rnd and minimise and (accept != (st == "ok")):
+            from vmon.probe import Rec
+            short = {"net": net, "probe": case["probe"], "rounds": [rnd]}
+            trial = Rec()
+            errpath_history(nets, short, trial, minimise=False)
+            if any(v["mech"].startswith("errpath.next_check.") for v in trial.violations):
+                cs = short
+        rec.case((net, "errpath", case["probe"], len(done), repr(rnd)))
+        which = "errpath.first_check" if not rnd else "errpath.next_check"
+        rec.ev("Tx.check(errpath)")
+        rec.ev("%s.expected_%s" % (which, "accept" if accept else "reject"))
+        if rnd:
+            if accept and total_size >= LIMIT - 1:
+                rec.ev("errpath.next_check.expected_accept.at_size_limit")
+            if len(rnd) > 1:
+                rec.ev("errpath.next_check.after_several_refused_calls")
+            for r in rnd:
+                if r["on"] != "same" and r["on"][0] != net:
+                    rec.ev("errpath.next_check.after_refusal_on_other_network")
+        if accept and st != "ok":
+            rec.violation(which + ".rejects_wellformed", cs, e, "return")
+        elif not accept and st == "ok":
+            rec.violation(which + ".accepts_defective." + dfx[0], dict(cs, defects=dfx), "returned", "raise")
+        diff = _snap_diff(before, after)
+        if diff:
+            rec.violation(which + ".mutates_tx", cs, diff, "unchanged")
+        if cb:
+            st_, n = observe(tx.bad_solution_count)
+            rec.ev("errpath.bad_solution_count(coinbase)")
+            if st_ != "ok" or n != 0:
+                rec.violation("errpath.coinbase.counted_as_unsigned", cs, n, 0)
+
+
+def errpath_plan(rng, part, nparts):
+    """the histories of one shard: every refusal family on the same and on other objects (three sizes, every network) before every probe"""
+    refs = [list(r) for r in REFUSALS] + [["api", a] for a in API_REFUSALS]
+    out = []
+    k = 0
+    for pi, probe in enumerate(PROBE_NAMES):
+        if pi % nparts != part:
+            continue
+        net = NETS[pi % len(NETS)]
+        order = list(refs)
+        rng.shuffle(order)
+        rounds = []
+        for what in order:
+            k += 1
+            if what[0] != "api" and k % 3 == 0:
+                on = "same"
+            else:
+                on = [NETS[(pi + k) % len(NETS)], BROKEN_SIZES[k % 3], what[0] in ("witness_item", "witness") or k % 2 == 0]
+            rounds.append([{"on": on, "what": what}])
+            if k % 7 == 0:                 # several refused calls in a row before the judged one
+                rounds[-1] += [{"on": "same" if j else [NETS[(k + j) % len(NETS)], BROKEN_SIZES[2], True], "what": rng.choice(REFUSALS)} for j in range(2)]
+        # the families on the SAME object, each once more, in another order
+        same = [list(r) for r in REFUSALS if r[1] in (None, "last")]
+        rng.shuffle(same)
+        rounds += [[{"on": "same", "what": what}] for what in same[:20]]
+        out.append({"net": net, "probe": probe, "rounds": rounds})
+    return out
+
+
+# ---------------------------------------------------------------------------------------------
+# the N-th call: one object, one process, more than 2^16 check() calls, each judged from two running flags
+
+LONGRUN_HOLDS = ["duplicate", "total_over", "null_outpoint", "oversize", "wellformed"]
+
+
+def longrun(net, T, n_ops, rec, hold="duplicate"):
+    """one object, n_ops check() calls. Outside the windows around call 2^16 and 2^17 the object is edited between calls (a fixed
+    function of the call number, so that a stored case {"longrun": k, "hold": ...} replays the first k calls); inside a window (40 calls
+    either side, so that a few more calls made by the harness do not matter) it is held in ONE state - `hold`: the only defect it has
+    is the named one, or none - so that the 2^16-th call is judged on a rule that alone decides the verdict."""
+    MAX = MAXES[net]
+    d = _flav_tx(2, 4242)
+    _set_pt(d, 1, (d["ins"][0]["prev"], 1))
+    d["outs"][0]["value"], d["outs"][1]["value"] = MAX - 1, 0
+    tx = G.to_pycoin(T, d)
+    ins, outs = tx.txs_in, tx.txs_out
+    dup = over = False
+    held = None
+    case = {"net": net, "hold": hold}
+    state = {}
+    bad = 0
+    for k in range(1, n_ops + 1):
+        in_window = abs(k - (1 << 16)) <= 40 or abs(k - (1 << 17)) <= 40
+        if in_window and held is None:
+            dup = over = False
+            ins[1].previous_index, outs[1].coin_value = 1, 0
+            if hold == "duplicate":
+                ins[1].previous_index = 0
+                held = lambda: setattr(ins[1], "previous_index", 1)
+            elif hold == "total_over":
+                outs[1].coin_value = 2
+                held = lambda: setattr(outs[1], "coin_value", 0)
+            elif hold == "null_outpoint":
+                old = (ins[1].previous_hash, ins[1].previous_index)
+                ins[1].previous_hash, ins[1].previous_index = NULL
+
+                def held(old=old):
+                    ins[1].previous_hash, ins[1].previous_index = old
+            elif hold == "oversize":
+                old = outs[1].script
+                outs[1].script = b"\x6a" * LIMIT
+                held = lambda old=old: setattr(outs[1], "script", old)
+            else:
+                held = lambda: None
+        elif not in_window and held is not None:
+            held()
+            held = None
+        if not in_window:
+            r = ((k * 2654435761) >> 9) % 100
+            if r < 30:
+                dup = not dup
+                ins[1].previous_index = 0 if dup else 1
+            elif r < 60:
+                over = not over
+                outs[1].coin_value = 2 if over else k & 1
+            elif r < 70:
+                ins[0].script = b"\x51" * (k % 4)
+        defective = (hold != "wellformed") if in_window else (dup or over)
+        try:
+            tx.check()
+            ok = True
+        except Exception:
+            ok = False
+        if in_window:
+            rec.ev("longrun.window_call.expected_" + ("reject." + hold if defective else "accept"))
+        if ok == defective:
+            bad += 1
+            if bad <= 3:
+                rec.violation("longrun.check_%s_at_nth_call" % ("accepts_defective" if ok else "rejects_wellformed"),
+                              dict(case, longrun=k, in_window=in_window), "returned" if ok else "raised", "raise" if ok else "return")
+        if k % 8192 == 0 or k in (65500, 65580) or k == n_ops:
+            # the running flags against the predicate over the object's fields, with full snapshots
+            dd = G.from_pycoin(tx)
+            if bool(defects(dd, MAX)) != defective:
+                rec.ev("inconclusive:longrun_flags_disagree_with_predicate")
+            _judge_live(net, T, tx, rec, ["longrun", hold, "call %d" % k], case=dict(case, longrun=k), state=state)
+    rec.ev("longrun.calls_on_one_object", n_ops)
+    rec.case((net, "longrun", hold, n_ops))
+    if n_ops > (1 << 16) + 64:
+        rec.ev("longrun.more_than_2^16_calls_on_one_object")
+
+
 def run_shard(spec, rec):
     nets = _nets(rec)
     kind = spec["kind"]
-    if kind not in ("history", "bighist"):
+    if kind not in ("history", "bighist", "errpath", "longrun"):
         rec.require("Tx.check", "Tx.is_coinbase", "purity_snapshot.returning", "purity_snapshot.raising", "expected_accept")
     if kind == "sweep":
         net = spec["net"]
@@ -1474,6 +2271,47 @@ def run_shard(spec, rec):
             _check_one(net, nets[net], d, rec, label=label)
         return
     rng = shard_rng(spec["seed"], PROPERTY, spec["tier"], spec["shard"])
+    if kind == "flavours":
+        rec.require(*FLAVOUR_COUNTERS)
+        k = 0
+        for net in spec["nets"]:
+            for label, d, flav in flavour_sweep(net):
+                k += 1
+                _check_one(net, nets[net], d, rec, label="flavours: " + label, flav=flav, second=(k % 5 == 0), with_unspents=(k % 7 == 0))
+        rec.require(*["producer." + x for x in PRODUCERS])
+        rec.require("Tx.check(history)", "history.expected_accept", "history.expected_reject.duplicate_outpoint",
+                    "history.expected_reject.coinbase_script_size")
+        for net in spec["nets"]:
+            for args in producer_cases(net):
+                producer_case(net, nets[net], args, rec)
+        for i in range(spec["n"]):
+            net = spec["nets"][i % len(spec["nets"])]
+            kd, d, flav = flavour_random(rng, net)
+            _check_one(net, nets[net], d, rec, label="flavours: random " + kd, flav=flav, second=(i % 8 == 0), full_snapshot=(i % 4 == 0))
+        return
+    if kind == "countedge":
+        rec.require("count_edge.accept.65535", "count_edge.accept.65536", "count_edge.reject.65535", "count_edge.reject.65536")
+        for k, (label, rc) in enumerate(count_edge_recipes(spec["tier"])):
+            net = NETS[(k + spec["seed"]) % len(NETS)]
+            st = _run_recipe(net, nets[net], rc, rec, "count edge: " + label, full_snapshot="noids")
+            if st:
+                rec.ev("count_edge.%s.%d" % ("accept" if "=%d" % (LIMIT + 1) not in label else "reject", rc["n_out"]))
+        return
+    if kind == "errpath":
+        rec.require("Tx.check(errpath)", "errpath.next_check.expected_accept", "errpath.next_check.expected_reject",
+                    "errpath.next_check.expected_accept.at_size_limit", "errpath.next_check.after_several_refused_calls",
+                    "errpath.next_check.after_refusal_on_other_network", "errpath.refused.on_same_object", "errpath.refused.on_other_object",
+                    "errpath.bad_solution_count(coinbase)")
+        rec.require(*["errpath.refused." + f for f in REFUSAL_FAMILIES])
+        for _ in range(spec.get("repeat", 1)):
+            for case in errpath_plan(rng, spec["part"], spec["nparts"]):
+                errpath_history(nets, case, rec)
+        return
+    if kind == "longrun":
+        rec.require("longrun.more_than_2^16_calls_on_one_object", "Tx.check(history)", "longrun.window_call.expected_accept")
+        rec.require(*["longrun.window_call.expected_reject." + h for h in LONGRUN_HOLDS if h != "wellformed"])
+        longrun(spec["net"], nets[spec["net"]], spec["n"], rec, hold=spec["hold"])
+        return
     if kind == "sizeclass":
         for c in spec["classes"]:
             cls = _size_class({"ins": [0] * c, "outs": []})
@@ -1561,6 +2399,18 @@ def replay_case(case, rec):
         return
     if "start" in case:
         small_history(net, nets[net], G.unpack(case["start"]), case["steps"], rec)
+        return
+    if "probe" in case:
+        errpath_history(nets, case, rec)
+        return
+    if "producer" in case:
+        producer_case(net, nets[net], case["producer"], rec)
+        return
+    if "longrun" in case:
+        longrun(net, nets[net], int(case["longrun"]), rec, hold=case.get("hold", "duplicate"))
+        return
+    if case.get("flav"):
+        _check_one(net, nets[net], G.unpack(case["tx"]), rec, label=case.get("label"), flav=case["flav"], second=True)
         return
     if "live" in case:
         lv = case["live"]
